@@ -1,6 +1,7 @@
 """Per-property configuration of the simulation checks: single source for bin/check and MANIFEST.json."""
 
 E1C = {'real': ['cppcms::service, applications_pool, http / scgi / fastcgi connection classes (src/http_api.cpp, scgi_api.cpp, fastcgi_api.cpp), private/http_parser.h, cgi_api.cpp (load_content, pending output), http::context/request/response, response stream buffers, gzip (zlib), page cache (thread_shared), thread pool, booster::aio io_service + reactor (epoll/poll/select) + stream_socket + acceptor, HTTP watchdog'], 'stub': ['kernel sockets / pipes / readiness / clock (sim/simk)', 'the web server in front of SCGI/FastCGI and the browsers (harness encoders/decoders in harness/wire_proto.h)', 'thread scheduler']}
+E5C = {'real': ['cppcms::session_interface, session_pool::init (config parsing, key checks), sessions::session_cookies / session_sid / session_dual, hmac_cipher, aes_cipher (+ OpenSSL AES/SHA, bundled md5/sha1), b64url, session_memory_storage, session_file_storage on the simulated file system, urandom_device on simulated /dev/urandom'], 'stub': ['browsers (cookie jar honouring Max-Age/Expires against the simulated clock, per-request snapshot of sent cookies)', 'attackers (cookie rewriting)', 'clock', 'entropy (/dev/urandom served from the seed)', 'disk (simulated FS with short/interrupted I/O)']}
 E2_COMPONENTS = {"real": ["cppcms::impl::mem_cache<thread_settings> (src/cache_storage.cpp)", "mem_cache<process_settings> + shmem_control + buddy_allocator (shared memory)", "private/hash_map.h",
                           "cppcms::cache_interface + triggers_recorder over a real cppcms::service / cache_pool"],
                  "stub": ["clock (time() read by the cache) - simulated, advanced by plan ops"]}
@@ -157,9 +158,41 @@ PROPS = {
    note="Trusts the harness's multipart encoder and model; upload spill files use the real file system.",
    technique="deterministic simulation: real multipart/upload path on simulated sockets, seeded chunking + adversarial contents, exact-reconstruction oracle",
    design_ref="DESIGN.md s4 C12, s3 E1"),
+ "C05": dict(engine="E5 session", src="e5_session", variants=["asan"], level="exploration",
+   seconds={"quick": 40, "thorough": 600},
+   rule="case = one server (session_pool with one of 13 encryptor configurations: hmac-{md5,sha1,sha224,sha256,sha384,sha512}, aes/aes128/aes192/aes256, split cbc+hmac keys) and a history of 3..43 operations: save(payload 0..64 KiB, age), load, clock advance (seconds..years), "
+        "and attacker rewrites of the browser's cookie (single-bit flips - position enumerated across runs, truncation, extension, cipher block swaps, splices of two issued cookies, cookies issued by a server with another key or another algorithm, prefix change, random strings, replay of old cookies, non-canonical base64, empty cipher). "
+        "Oracle over the history: load succeeds iff the presented cookie decodes (independent base64url decoder) to a cipher text this server issued and its deadline has not passed, and then returns exactly the data saved with it; rejected cookies are cleared from the jar, nothing throws; save-then-load is the identity; "
+        "with encrypting back-ends equal payloads give different cookies, no 16-byte block repeats, the payload does not occur in the cookie; CBC-without-MAC and 8-byte keys are refused at configuration time. non-trivial = history with >= 1 accepted and >= 1 rejected load; distinct = plan hash",
+   fault_keys=["attacks", "ticks", "clock_jumps"],
+   probe_keys=["loads_accepted", "loads_rejected", "saves", "config_refusal_checks", "repeated_cipher_block"],
+   components=E5C,
+   assumptions=["cryptographic strength itself is outside the reach of sampling: the structural confidentiality checks are necessary conditions only", "entropy comes from the simulated /dev/urandom (seeded)"],
+   category="exploration",
+   text="Deterministic simulation of the client-side session stack under a simulated clock, entropy source and an attacker rewriting the stored cookie at arbitrary points of a save/load history; a history oracle decides authenticity and expiry exactly.",
+   note="Trusts the harness's independent base64url decoder and bookkeeping of issued cipher texts; sampling cannot establish cryptographic strength.",
+   technique="deterministic simulation (clock, entropy, attacker actor) over save/load histories with a history oracle",
+   design_ref="DESIGN.md s4 C05, s3 E5"),
+ "C06": dict(engine="E5 session", src="e5_session", variants=["asan"], level="exploration",
+   seconds={"quick": 40, "thorough": 600},
+   rule="case = 1..3 simulated browsers issuing 2..32 requests (load; 0..6 of set/erase/clear/expose/hide/age/default_age/expiration/default_expiration/on_server/reset_session; optional clock advance inside the request; save) against one session_pool with location client|server|both, storage memory|files (simulated FS, optional short/interrupted I/O), "
+        "expire fixed|renew|browser, client_size_limit flipping cookie/server storage, remove_unknown_cookies on/off; interleaved with clock advances (around deadlines and the 10% renewal boundary), gc, browser restarts and attacker requests (ended ids, path-like / upper-case / short / long / non-hex ids, junk C cookies). "
+        "Oracle after every request: loaded view == reference model (values, exposed flags, age, expiration, on_server) or empty once cleared/expired (interval model: renewal may be skipped only while < 10% of the period has elapsed); cookie prefix (I/C) matches the prescribed storage location; server ids well-formed, fresh on new/reset sessions, old ids gone from the storage after clear/reset/migration; "
+        "exposed values present in / absent from the browser's cookies in step with the session; ids not of the issued form never reach the storage (spy storage). non-trivial = >= 3 requests, a live load and a clock advance; distinct = plan hash",
+   fault_keys=["file_short_io", "file_eintr", "ticks", "attacks", "browser_closed", "gc"],
+   probe_keys=["fixed_unchanged", "renew_skippable", "renew_boundary", "renewed", "moved_server_to_client", "moved_client_to_server", "sessions_reset", "session_cleared", "expired_during_request", "exposed_checked", "on_server_refused", "server_side_saves", "client_side_saves"],
+   components=E5C,
+   assumptions=["requests of different browsers are issued sequentially in this version (no concurrent requests); network session storage is not exercised", "a browser presents the cookies it held when the request began (snapshot), as a real HTTP request does",
+                "an id a browser merely forgot is still a live bearer token; only cleared/reset/expired ids are treated as ended"],
+   category="exploration",
+   text="Deterministic simulation of browsers, clock, entropy and disk around the real session stack; a reference model of the documented save policy is compared after every request, including storage location, id freshness and exposed cookies.",
+   note="Trusts the reference model of the save policy (DESIGN.md Appendix A) and the cookie-jar semantics of the simulated browsers.",
+   technique="deterministic simulation (simulated browsers/cookie jars, clock, entropy, disk faults) with a reference model checked after every request",
+   design_ref="DESIGN.md s4 C06, s3 E5"),
 }
 
 ENGINES = [
+ {"name": "E5 session", "path": "harness/e5_session.cpp", "serves_properties": ["C05", "C06"], "kind_free_text": "real session stack with simulated browsers, attackers, clock, entropy and disk"},
  {"name": "E1 wire", "path": "harness/e1_wire.cpp", "serves_properties": ["C01", "C02", "C03", "C12"], "kind_free_text": "real cppcms::service with http/scgi/fastcgi front-ends on simulated sockets, clock and scheduler; simulated peers"},
  {"name": "E6 loop", "path": "harness/e6_loop.cpp", "serves_properties": ["C17"], "kind_free_text": "real io_service/reactors/timers/stream_socket/thread_pool on simulated descriptors, clock and scheduler"},
  {"name": "E7 crashfs", "path": "harness/e7_crashfs.cpp", "serves_properties": ["C18"], "kind_free_text": "real session_file_storage over the simulated disk; crash states enumerated from the write journal"},
